@@ -1,5 +1,6 @@
 (* Lemmas about the daemon model (Model.Daemon): kick routing arithmetic (C17). *)
-From VV Require Import Base.Bits Base.Rt Base.Val Model.Daemon Spec.DaemonSpec.
+From VV Require Import Base.Bits Base.Rt Base.Val Gen.GenRoute Model.Daemon Spec.DaemonSpec.
+Open Scope string_scope.
 From Coq Require Import ZArith ZifyBool ZifyNat ZifyN.
 Open Scope list_scope.
 Open Scope N_scope.
@@ -41,6 +42,51 @@ Qed.
 Lemma rank_formula m q : popcount m - popcount (N.shiftr m q) = popcount (m mod 2 ^ q).
 Proof. pose proof (popcount_split q m). lia. Qed.
 
+Fixpoint list_eqb_s (a b : list string) : bool :=
+  match a, b with
+  | [], [] => true
+  | x :: ra, y :: rb => String.eqb x y && list_eqb_s ra rb
+  | _, _ => false
+  end.
+(* the regenerated membership test is "bit q of the mask", the regenerated event id is the rank *)
+Lemma land1_testbit x : (N.land x 1 =? 1) = N.testbit x 0.
+Proof.
+  change 1 with (N.ones 1) at 1. rewrite N.land_ones. change (2 ^ 1) with 2. rewrite <- N.bit0_mod.
+  destruct (N.testbit x 0); reflexivity.
+Qed.
+Lemma route_hit_testbit m q : route_hit (route_shift m q) = N.testbit m q.
+Proof. unfold route_hit, route_shift. rewrite land1_testbit, N.shiftr_spec by apply N.le_0_l. rewrite N.add_0_l. reflexivity. Qed.
+Lemma route_member_testbit m q : route_member m q = N.testbit m q.
+Proof. unfold route_member. rewrite land1_testbit, N.shiftr_spec by apply N.le_0_l. rewrite N.add_0_l. reflexivity. Qed.
+Lemma route_evt_rank m q : route_evt m (route_shift m q) = popcount (m mod 2 ^ q).
+Proof. unfold route_evt, route_shift. apply rank_formula. Qed.
+(* the subtraction of the source cannot underflow (it is checked arithmetic in debug builds) *)
+Lemma route_evt_no_underflow m q : popcount (route_shift m q) <= popcount m.
+Proof. unfold route_shift. pose proof (popcount_split q m). lia. Qed.
+(* registration and unregistration compute the same worker and the same id *)
+Lemma unroute_same : forall m q, unroute_shift m q = route_shift m q /\ unroute_hit (unroute_shift m q) = route_hit (route_shift m q)
+                                 /\ unroute_evt m (unroute_shift m q) = route_evt m (route_shift m q).
+Proof. intros m q. repeat split; reflexivity. Qed.
+(* the shape around the expressions: one loop over the worker masks in order, the hit worker's own handler, the event
+   id itself handed over, and the loop stops at the first hit *)
+Definition route_shape_ok : bool :=
+  list_eqb_s route_shape
+    ["for (thread_index , queues_mask) in self . queues_per_thread . iter () . enumerate ()";
+     "register_event on self . handlers [thread_index] with fd . as_raw_fd () , EventSet :: IN , u64 :: from (evt_idx)";
+     "unregister_event on self . handlers [thread_index] with fd . as_raw_fd () , EventSet :: IN , u64 :: from (evt_idx)";
+     "break"; "event id variable evt_idx"]
+  && list_eqb_s unroute_shape
+    ["for (thread_index , queues_mask) in self . queues_per_thread . iter () . enumerate ()";
+     "unregister_event on self . handlers [thread_index] with fd . as_raw_fd () , EventSet :: IN , u64 :: from (evt_idx)";
+     "break"; "event id variable evt_idx"]
+  && list_eqb_s route_new_shape
+    ["for (thread_id , queues_mask) in queues_per_thread . iter () . enumerate ()";
+     "for (index , vring) in vrings . iter () . enumerate ()";
+     "then { thread_vrings . push (vring . clone ()) ; }";
+     "VringEpollHandler::new with backend . clone () , thread_vrings , thread_id"].
+Lemma route_shape_ok_true : route_shape_ok = true.
+Proof. vm_compute. reflexivity. Qed.
+
 (* the model's owner computation is the specification's *)
 Lemma owner_is_spec : forall masks q t,
   owner_of masks q t = match spec_owner masks q (N.of_nat t) with
@@ -49,8 +95,9 @@ Lemma owner_is_spec : forall masks q t,
                        end.
 Proof.
   induction masks as [|m r IH]; intros q t; cbn [owner_of spec_owner]; [reflexivity|].
+  cbv zeta. rewrite route_hit_testbit.
   destruct (N.testbit m q).
-  - rewrite rank_formula, Nat2N.id. reflexivity.
+  - rewrite route_evt_rank, Nat2N.id. reflexivity.
   - rewrite IH. replace (N.of_nat (S t)) with (N.of_nat t + 1) by lia. reflexivity.
 Qed.
 
@@ -169,4 +216,17 @@ Proof.
   rewrite nth_error_upd in Hr'.
   - injection Hr' as <-. cbn. repeat split; reflexivity.
   - rewrite update_reg_rings. unfold put_ring, set_rings. cbn [d_rings]. rewrite upd_length. exact Hlt.
+Qed.
+
+(* the slice VhostUserHandler::new builds (regenerated membership test) is the mask's queues in increasing order, and
+   the element at the regenerated event id of queue q is q *)
+Lemma slice_filter m nq :
+  filter (fun x => route_member m x) (map N.of_nat (seq 0 nq)) = filter (fun x => N.testbit m x) (map N.of_nat (seq 0 nq)).
+Proof. apply filter_ext. intros x. apply route_member_testbit. Qed.
+Lemma slice_at_event_id m nq q :
+  (q < nq)%nat -> route_hit (route_shift m (N.of_nat q)) = true ->
+  nth_error (filter (fun x => route_member m x) (map N.of_nat (seq 0 nq)))
+            (N.to_nat (route_evt m (route_shift m (N.of_nat q)))) = Some (N.of_nat q).
+Proof.
+  intros Hq Hh. rewrite route_hit_testbit in Hh. rewrite slice_filter, route_evt_rank. apply slice_at_rank; assumption.
 Qed.
